@@ -26,48 +26,76 @@ ASSUMPTIONS = ["np.searchsorted / itertools.accumulate / chain.from_iterable sem
 TRUSTED = ["ast"]
 
 
+def _abstract_collections(ctx):
+    """evaluate the collection's aggregates and indexing over abstract member datasets (symbolic mazes) for every vector of
+    member lengths in {0,1,2}^k, k <= 4 (121 collections, the empty collection and zeros at every position included)"""
+    import itertools
+
+    from sa.absobj import AbstractClass
+    from sa.fold import EvalRaised, Obj, Unknown
+
+    def getitem(o, k):
+        if o.cls == "DS":
+            return o.attrs["mazes"][k]
+        raise Unknown("subscript of abstract object")
+
+    ac = AbstractClass(ctx.index, C, len_of=lambda o: len(o.attrs["mazes"]), getitem_of=getitem)
+    vectors = [v for k in range(0, 5) for v in itertools.product((0, 1, 2), repeat=k)]
+    dev: dict[str, list] = {"__len__": [], "dataset_lengths": [], "dataset_cum_lengths": [], "mazes": [], "__getitem__": []}
+    unknown: dict[str, str] = {}
+    n_idx = 0
+    for vec in vectors:
+        members = [Obj("DS", {"mazes": [f"m{k}.{i}" for i in range(n)], "cfg": Obj("DScfg", {"n_mazes": n})}) for k, n in enumerate(vec)]
+        flat = [m for d in members for m in d.attrs["mazes"]]
+        # the config's own count is *not* a source of truth for the collection (it is compare=False because it drifts): symbolic value
+        self_obj = Obj("self", {"maze_datasets": members, "cfg": Obj("CollectionCfg", {"n_mazes": "<cfg.n_mazes: possibly stale>"})})
+        want = {"__len__": len(flat), "dataset_lengths": list(vec), "dataset_cum_lengths": list(itertools.accumulate(vec)), "mazes": flat}
+        for name, w in want.items():
+            if name in unknown:
+                continue
+            try:
+                got = ac.call(self_obj, name, [])
+                got = list(got) if isinstance(got, (list, tuple)) else got
+            except EvalRaised as e:
+                got = f"raises {e.exc_name}"
+            except Unknown as e:
+                unknown[name] = str(e)[:160]
+                continue
+            if got != w and len(dev[name]) < 3:
+                dev[name].append({"member_lengths": list(vec), "found": got, "expected": w})
+            after = [list(d.attrs["mazes"]) for d in members]
+            if after != [[f"m{k}.{i}" for i in range(n)] for k, n in enumerate(vec)] and len(dev[name]) < 3:
+                dev[name].append({"member_lengths": list(vec), "members_after_the_call": after, "expected": "members unchanged (the aggregate must not alias and extend a member's own list)"})
+                for k, n in enumerate(vec):
+                    members[k].attrs["mazes"][:] = [f"m{k}.{i}" for i in range(n)]
+        if "__getitem__" not in unknown:
+            for i, w in enumerate(flat):
+                n_idx += 1
+                try:
+                    got = ac.call(self_obj, "__getitem__", [i])
+                except EvalRaised as e:
+                    got = f"raises {e.exc_name}"
+                except Unknown as e:
+                    unknown["__getitem__"] = str(e)[:160]
+                    break
+                if got != w and len(dev["__getitem__"]) < 3:
+                    dev["__getitem__"].append({"member_lengths": list(vec), "index": i, "found": got, "expected": w})
+    return len(vectors), n_idx, dev, unknown
+
+
 def rule_Q1(ctx: Ctx) -> None:
     f = ctx.index.func(f"{C}.__getitem__")
-    ix = f.params()[1]
-    ss = [c for c in X.calls(f.node) if dotted_of(c.func) in ("np.searchsorted", "numpy.searchsorted")]
-    exp = "member k = searchsorted(cum_lengths, index + 1) (left) or searchsorted(cum_lengths, index, side='right'): the first member whose cumulative length exceeds index"
-    if len(ss) != 1:
-        ctx.unknown(f, {"searchsorted_calls": len(ss)}, exp)
-        return
-    c = ss[0]
-    arr = X.U(c.args[0])
-    val = c.args[1] if len(c.args) > 1 else N.kwarg(c, "v")
-    side = N.kwarg(c, "side")
-    side_v = side.value if isinstance(side, ast.Constant) else ("left" if side is None else "?")
-    a = N.affine(val)
-    off = a.get(1, 0)
-    coef = a.get(ix, 0)
-    ok = arr == "self.dataset_cum_lengths" and coef == 1 and len([k for k in a if k != 1]) == 1 and ((side_v == "left" and off == 1) or (side_v == "right" and off == 0))
-    ctx.judge(f, ok, {"call": X.U(c), "array": arr, "value": N.aff_str(a), "side": side_v}, exp,
-              "items at member boundaries come from the neighbouring member (off-by-one), and empty members are not skipped", node=c)
-    kname = None
-    for s in ast.walk(f.node):
-        if isinstance(s, (ast.Assign, ast.AnnAssign)) and getattr(s, "value", None) is c:
-            kname = X.U(s.targets[0] if isinstance(s, ast.Assign) else s.target)
-    # local index
-    adj = [s for s in ast.walk(f.node) if isinstance(s, ast.AugAssign) and isinstance(s.op, ast.Sub)]
-    ok2 = None
-    slot = {}
-    if len(adj) == 1 and kname:
-        par = X.parents_map(f.node)
-        g = par.get(adj[0])
-        okg, _ = X.relation_in(g.test, [f"{kname} > 0", f"{kname} >= 1", f"{kname} != 0"]) if isinstance(g, ast.If) else (False, {})
-        sub = adj[0].value
-        ok_sub = isinstance(sub, ast.Subscript) and X.U(sub.value) == "self.dataset_cum_lengths" and N.aff_eq(sub.slice, X.expr_of(f"{kname} - 1"))
-        base = X.assignments_to(f.node, X.U(adj[0].target))
-        ok_base = any(X.U(b) == ix for b in base if not isinstance(b, ast.BinOp))
-        ok2 = okg and ok_sub and ok_base
-        slot = {"adjust": X.U(adj[0]), "guard": X.U(g.test) if isinstance(g, ast.If) else None}
-    ctx.judge(f, ok2, slot, "local index = index - cum_lengths[k - 1] for k > 0 (index itself for k = 0)",
-              "the local index is shifted: wrong maze within the member / IndexError")
+    n_vec, n_idx, dev, unknown = _abstract_collections(ctx)
+    exp = ("for every collection with member lengths in {0,1,2}^k (k <= 4) and every valid index i, collection[i] is the i-th maze of the "
+           "concatenation of the members (the first member whose cumulative length exceeds i, at the local offset)")
+    ok = None if "__getitem__" in unknown else not dev["__getitem__"]
+    ctx.judge(f, ok, {"collections": n_vec, "indices_evaluated": n_idx, "deviations": dev["__getitem__"], "undecided": unknown.get("__getitem__")}, exp,
+              "items at member boundaries come from the neighbouring member (off-by-one), empty members are not skipped, or the local index is shifted")
+    # the search itself is a binary search on the cumulative lengths (documented mechanism; any correct spelling is accepted above)
+    ss = [c for c in X.calls(f.node) if dotted_of(c.func) in ("np.searchsorted", "numpy.searchsorted", "bisect.bisect_right", "bisect.bisect_left", "bisect.bisect")]
+    ctx.holds(f, {"search_calls": [X.U(c)[:80] for c in ss]}, "observation: how the member is located")
     rets = X.returns_of(f.node)
-    ok3 = len(rets) == 1 and kname and X.U(rets[0].value) == f"self.maze_datasets[{kname}][{X.U(adj[0].target) if adj else ix}]"
-    ctx.judge(f, bool(ok3), {"returns": X.U(rets[0].value) if rets else None}, "the item is member k's item at the local index")
+    ctx.judge(f, bool(rets) and all(r.value is not None for r in rets), {"returns": [X.U(r.value)[:80] for r in rets]}, "indexing returns the member's own maze object (no copy is required or forbidden by the property)")
 
 
 def rule_Q2(ctx: Ctx) -> None:
@@ -76,19 +104,15 @@ def rule_Q2(ctx: Ctx) -> None:
         r = X.returns_of(f.node)
         return f, (r[0].value if len(r) == 1 else None)
 
-    f, v = single("__len__")
-    ok = X.same_expr(v, "sum(len(dataset) for dataset in self.maze_datasets)", "sum(self.dataset_lengths)", "len(self.mazes)", "sum([len(dataset) for dataset in self.maze_datasets])")
-    ctx.judge(f, ok, {"returns": X.U(v)}, "len = sum of the members' lengths", "the collection's length disagrees with its members")
-    f, v = single("dataset_lengths")
-    ew = X.elementwise(v)
-    ok = ew is not None and ew[2] == "list" and X.U(ew[1]) == "self.maze_datasets" and X.same_expr(ew[0], "len(_x)")
-    ctx.judge(f, ok, {"returns": X.U(v)}, "per-member lengths, in member order")
-    f, v = single("dataset_cum_lengths")
-    ok = X.same_expr(v, "np.array(list(itertools.accumulate(self.dataset_lengths)))", "np.cumsum(self.dataset_lengths)")
-    ctx.judge(f, ok, {"returns": X.U(v)}, "cumulative lengths = running totals of dataset_lengths (inclusive)", "an exclusive/shifted running total breaks the index search")
-    f, v = single("mazes")
-    ok = X.same_expr(v, "list(itertools.chain.from_iterable(dataset.mazes for dataset in self.maze_datasets))", "list(itertools.chain.from_iterable([dataset.mazes for dataset in self.maze_datasets]))")
-    ctx.judge(f, ok, {"returns": X.U(v)}, "the flattened maze list chains the members' mazes in member order", "the flattened list is ordered differently from indexing")
+    n_vec, n_idx, dev, unknown = _abstract_collections(ctx)
+    docs = {"__len__": ("len = sum of the members' lengths", "the collection's length disagrees with its members"),
+            "dataset_lengths": ("per-member lengths, in member order", "lengths are listed in another order / for other members"),
+            "dataset_cum_lengths": ("cumulative lengths = inclusive running totals of the member lengths", "an exclusive/shifted running total breaks the index search"),
+            "mazes": ("the flattened maze list chains the members' mazes in member order", "the flattened list is ordered differently from indexing")}
+    for nm, (e_, why) in docs.items():
+        fn_ = ctx.index.func(f"{C}.{nm}")
+        ok = None if nm in unknown else not dev[nm]
+        ctx.judge(fn_, ok, {"collections": n_vec, "deviations": dev[nm], "undecided": unknown.get(nm)}, e_ + " (abstract evaluation over every member-length vector in {0,1,2}^k, k <= 4)", why)
     # the index tables are recomputed from the members on every access (plain properties); only `mazes` is cached (tabulated: as in the pinned tree)
     for nm in ("dataset_lengths", "dataset_cum_lengths"):
         fn = ctx.index.func(f"{C}.{nm}")
